@@ -209,6 +209,22 @@ def main():
     known_obls = sorted(f"{b}:{u}:{f}" for (b, u, f) in kf_units)
     obligations -= len(kf_units)
 
+    # bounded stand-in of last resort: a unit that left the verifier's reach (anchor lost, rewritten outside the Verus
+    # subset) leaves the property UNDECIDED; the native witness family is then run on the current tree, and an input it
+    # finds is reported as a violation (with that input as replay). It is never counted as proof and never runs when
+    # the verifier has decided.
+    fallback_note = None
+    if undecided and not new_viol and any(u.startswith("verus") for u in undecided) and os.environ.get("VERIF_NO_WITNESS") != "1":
+        try:
+            w = vf.witness_search(pid)
+        except Exception:  # noqa
+            w = None
+        if w:
+            new_viol.append({"key": f"witness:{pid}", "backend": "witness", "function": "(public entry points)",
+                             "obligation": "verifier UNDECIDED (" + "; ".join(undecided)[:300] + "); bounded stand-in: native witness family",
+                             "output": w, "replay": None, "_witness": w})
+            fallback_note = "verifier undecided; violation found by the bounded native witness family"
+
     # replay files
     rdir = os.path.join(VERIF, ".work", "replay") if not os.environ.get("VERIF_EVIDENCE_DIR") else os.path.join(os.environ["VERIF_EVIDENCE_DIR"], "replay")
     os.makedirs(rdir, exist_ok=True)
@@ -224,6 +240,8 @@ def main():
                     v["output"] = pb["test"] + "\n" + v["output"]
             except Exception as e:  # noqa
                 witness = None
+        if v["backend"] == "witness":
+            witness = v["_witness"]
         if v["backend"] == "verus":
             if "_verus_witness" not in locals():
                 try:
